@@ -51,6 +51,9 @@ func (w *world) RoundTrip(req *http.Request) (*http.Response, error) {
 	w.entries = append(w.entries, e)
 	w.mu.Unlock()
 	<-e.rel
+	if seq%3 == 1 {
+		return nil, io.EOF // the server closed the connection without answering
+	}
 	return &http.Response{StatusCode: 200, Status: "200 OK", Body: io.NopCloser(strings.NewReader("")), Request: req,
 		Proto: "HTTP/1.1", ProtoMajor: 1, ProtoMinor: 1, Header: http.Header{}}, nil
 }
@@ -96,7 +99,7 @@ type script struct {
 
 type outcome struct {
 	steps                          []step
-	leak, panicked, ended, lateStop bool
+	leak, panicked, ended, lateStop, aliased bool
 }
 
 // abstract operations
@@ -111,6 +114,7 @@ const (
 	opAdvance // 3ms
 	opTickNeg // answer with a negative wait
 	opTickLong // answer with wait 7ms and advance only 4ms
+	opTickShort // answer with a wait below a millisecond (300us) and let it pass
 	nOps
 )
 
@@ -205,11 +209,14 @@ func runScript(t *testing.T, sc script) (out outcome) {
 			snap(&step{kind: 3, a: pick.seq})
 			return true
 		}
+		var kept []*vegeta.Result // every result the caller received, looked at again at the end
+		var keptSeq []uint64
 		consume := func() {
 			st := step{kind: 4}
 			select {
 			case r, ok := <-results:
 				if ok {
+					kept, keptSeq = append(kept, r), append(keptSeq, r.Seq)
 					st.cons, st.consSeq = 1, int64(r.Seq)
 				} else {
 					st.cons = 2
@@ -226,6 +233,7 @@ func runScript(t *testing.T, sc script) (out outcome) {
 			case r, ok := <-results:
 				got = true
 				if ok {
+					kept, keptSeq = append(kept, r), append(keptSeq, r.Seq)
 					st.cons, st.consSeq = 1, int64(r.Seq)
 				} else {
 					st.cons = 2
@@ -250,6 +258,10 @@ func runScript(t *testing.T, sc script) (out outcome) {
 			case opTickW:
 				if answer(5e6, false) {
 					advance(5e6)
+				}
+			case opTickShort:
+				if answer(300e3, false) {
+					advance(300e3)
 				}
 			case opTickLong:
 				if answer(7e6, false) {
@@ -286,6 +298,11 @@ func runScript(t *testing.T, sc script) (out outcome) {
 			}
 		}
 		out.ended = closedSeen
+		for i := range kept {
+			if kept[i].Seq != keptSeq[i] {
+				out.aliased = true
+			}
+		}
 		out.lateStop = atk.Stop()
 		synctest.Wait()
 		// goroutines still blocked when the bubble's root function returns make synctest.Test
@@ -322,7 +339,7 @@ func wire(prop string, id string, sc script, o outcome) string {
 		}
 		fmt.Fprintf(&b, " %d %d %d %d", s.cons, s.consSeq, bz(s.stop), s.tfails)
 	}
-	fmt.Fprintf(&b, " %d %d %d %d", bz(o.leak), bz(o.panicked), bz(o.ended), bz(o.lateStop))
+	fmt.Fprintf(&b, " %d %d %d %d %d", bz(o.leak), bz(o.panicked), bz(o.ended), bz(o.lateStop), bz(o.aliased))
 	return b.String()
 }
 
@@ -464,6 +481,15 @@ func TestDrive(t *testing.T) {
 			if line, ok := cliSignalTwice(prop, i, seed); ok {
 				fmt.Fprintln(bw, line)
 				dist["cli/interrupt-twice"]++
+				ncli++
+			}
+		}
+	}
+	if prop == "3" && only == "" {
+		for i := 0; i < 6; i++ {
+			if line, ok := cliWorkers(prop, i, seed); ok {
+				fmt.Fprintln(bw, line)
+				dist["cli/workers"]++
 				ncli++
 			}
 		}
